@@ -1,7 +1,7 @@
 from checks import durab_common as dc
 
 SPEC = dc.spec(
-    "C03", ["C03_guarded", "C03_refuted", "C03_newfile_fatal"], "Durab.c03_prop", 4, 24,
+    "C03", ["C03_guarded", "C03_refuted", "C03_newfile_fatal"], "Durab.c03_prop", 5, 25,
     level_text="Coq theorem C03_guarded: for EVERY schedule of the server (requests with catalog calls, flushes from any arm of the "
                "WAL loop, checkpoints with/without rotation, shutdown), every positive block-length function and EVERY prefix of the "
                "file-mutating system calls, outside the two windows named by guard_crash, start-up on the crash image succeeds and the "
